@@ -563,6 +563,16 @@ func gmSensor(r *rng, s *sink) [][]byte {
 var gmMetaKeys = []string{"STNM", "SIUN", "UNIT", "TYPE", "TSMP", "TMPC", "GPSF", "GPSP", "GPSU"}
 
 func gmMeta(r *rng, key string) []byte {
+	if r.chance(1, 30) {
+		// a statement that holds no complete value (repeat 0, size 0, a structure smaller than the
+		// type's width), possibly right after a scale: an error or an empty value, nothing worse
+		e := pick(r, [][]byte{klv(key, 'S', 2, 0, nil), klv(key, 'S', 0, 1, nil), klv(key, 'S', 1, 1, []byte{1}), klv(key, 'L', 2, 1, []byte{0, 1}),
+			klv(key, 'b', 1, 0, nil), klv(key, 'L', 4, 0, nil), klv(key, 'c', 0, 0, nil), klv(key, 'f', 4, 0, nil)})
+		if r.chance(1, 2) {
+			return append(klv("SCAL", 'S', 2, 1, []byte{0, 100}), e...)
+		}
+		return e
+	}
 	switch key {
 	case "TSMP":
 		return klv(key, 'L', 4, 1, beInts(4, int64(r.intn(100000))))
